@@ -9,7 +9,8 @@ import RtcVerif.Model.C04Store
 * `storeOther` — `__soft_to_hard_constraints`: `store[fk] = new.update_bounds(existing, "other")`;
   `storeSelf` — `_gp_update_constraint_store` for critical goals: `store[fk].update_bounds(new)`.
 * `hardStep` — the bounds `__goal_hard_constraint` derives for one goal at one step from the
-  solution of its priority (achieved epsilon + `violation_relaxation`, or achieved function value).
+  solution of its priority (achieved epsilon + `violation_relaxation`, or achieved function value;
+  steps violated beyond `violation_tolerance` are fixed at the achieved function value).
 * `runLoop` — the loop: insert the priority's critical goals, ask the solver oracle for *any*
   point feasible for (store, this priority's soft rows), convert the priority's goals, continue;
   stop at the first failure.
@@ -47,9 +48,23 @@ structure Sol where
   fval : String → Nat → Rat
   eps : Nat → Nat → Rat
 
+/-- `epsilon > violation_tolerance` (with `epsilon` already relaxed) -/
+def vtFires (o : HOpts) (eps : Rat) : Bool :=
+  match o.violationTolerance with
+  | some vt => decide (vt < eps)
+  | none => false
+
+/-- a violated step: the achieved function value `v` is fixed,
+    `[(v - relaxation)/nom - cr, (v + relaxation)/nom + cr]` -/
+def fixedStep (o : HOpts) (g : Goal) (v : Rat) : EIvl :=
+  ⟨.fin ((v - g.relaxation) / g.nomAt 0 - o.constraintRelaxation),
+   .fin ((v + g.relaxation) / g.nomAt 0 + o.constraintRelaxation)⟩
+
 /-- bounds retained for goal `g` (index `gj` in its priority) at step `i` from solution `s` -/
 def hardStep (o : HOpts) (g : Goal) (s : Sol) (gj i : Nat) : EIvl :=
-  if g.hasTargetBounds then hardTargetStep o g (s.eps gj i + o.violationRelaxation) i
+  if g.hasTargetBounds then
+    if vtFires o (s.eps gj i + o.violationRelaxation) then fixedStep o g (s.fval g.fk i)
+    else hardTargetStep o g (s.eps gj i + o.violationRelaxation) i
   else hardMinStep o g (s.fval g.fk i)
 
 /-- `__soft_to_hard_constraints` for one goal: all `n` steps -/
